@@ -6,6 +6,7 @@ import (
 	"fmt"
 	"os"
 	"os/exec"
+	"path/filepath"
 	"sort"
 	"strings"
 )
@@ -269,7 +270,12 @@ func determinismSelfTest(cfg *config) (map[string]interface{}, []string) {
 			if outs[k] != ref {
 				same = false
 				identical = false
-				infra = append(infra, fmt.Sprintf("determinism self-test (%s): event log of configuration %s differs from %s (first difference: %s)", id, k, refName, firstDiff(ref, outs[k])))
+				// keep both logs for inspection
+				os.MkdirAll(cfg.replays, 0o755)
+				base := filepath.Join(cfg.replays, "determinism-diff-"+cfg.prop+"-"+sanitize(id))
+				os.WriteFile(base+"-"+sanitize(refName)+".log", []byte(ref), 0o644)
+				os.WriteFile(base+"-"+sanitize(k)+".log", []byte(outs[k]), 0o644)
+				infra = append(infra, fmt.Sprintf("determinism self-test (%s): event log of configuration %s differs from %s (first difference: %s); both logs kept as %s-*.log", id, k, refName, firstDiff(ref, outs[k]), base))
 			}
 		}
 		total += len(outs)
@@ -286,7 +292,15 @@ func firstDiff(a, b string) string {
 	la, lb := strings.Split(a, "\n"), strings.Split(b, "\n")
 	for i := 0; i < len(la) && i < len(lb); i++ {
 		if la[i] != lb[i] {
-			return fmt.Sprintf("line %d: %q vs %q", i, trim(la[i], 200), trim(lb[i], 200))
+			k := 0
+			for k < len(la[i]) && k < len(lb[i]) && la[i][k] == lb[i][k] {
+				k++
+			}
+			lo := k - 80
+			if lo < 0 {
+				lo = 0
+			}
+			return fmt.Sprintf("line %d col %d: ...%q vs ...%q", i, k, trim(la[i][lo:], 200), trim(lb[i][lo:], 200))
 		}
 	}
 	return fmt.Sprintf("length %d vs %d lines", len(la), len(lb))
